@@ -119,6 +119,45 @@ func NewUniverse(m *openfgav1.AuthorizationModel, nobj int, withInvalid bool) *U
 						}
 						u.Cands = append(u.Cands, Cand{Key: tuple.NewTupleKey(obj, r, usr), Valid: false})
 					}
+					// a condition that the model attaches to ANOTHER restriction of the same user type (e.g. `group:1` with
+					// c2 where the model says [group, group#member with c2]): the shape of the user decides which
+					// restriction - and therefore which condition - applies
+					for _, ref := range refs {
+						for _, r2 := range refs {
+							if r2.GetCondition() == "" || r2.GetType() != ref.GetType() {
+								continue
+							}
+							sameShape := r2.GetRelation() == ref.GetRelation() && (r2.GetWildcard() != nil) == (ref.GetWildcard() != nil)
+							if sameShape {
+								continue
+							}
+							ok := false // is r2's condition also allowed on ref's own shape?
+							for _, r3 := range refs {
+								if r3.GetType() == ref.GetType() && r3.GetRelation() == ref.GetRelation() && (r3.GetWildcard() != nil) == (ref.GetWildcard() != nil) && r3.GetCondition() == r2.GetCondition() {
+									ok = true
+								}
+							}
+							if ok {
+								continue
+							}
+							usr := u.Objects[ref.GetType()][0]
+							switch {
+							case ref.GetWildcard() != nil:
+								usr = ref.GetType() + ":*"
+							case ref.GetRelation() != "":
+								usr += "#" + ref.GetRelation()
+							}
+							dup := false
+							for _, c := range u.Cands {
+								if c.Key.GetObject() == obj && c.Key.GetRelation() == r && c.Key.GetUser() == usr && c.Key.GetCondition().GetName() == r2.GetCondition() {
+									dup = true
+								}
+							}
+							if !dup {
+								u.Cands = append(u.Cands, Cand{Key: tuple.NewTupleKeyWithCondition(obj, r, usr, r2.GetCondition(), nil), Valid: false, Cond: r2.GetCondition()})
+							}
+						}
+					}
 					// a user type the relation does not list (first type of the model that is not allowed)
 					for _, t2 := range u.Types {
 						allowed := false
